@@ -20,6 +20,7 @@ import OFV.Proofs.C05BksfNum
 import OFV.Proofs.C05BksfTwo
 import OFV.Proofs.C05BksfTwo2
 import OFV.Properties.C04
+import OFV.Proofs.C05Mul
 
 namespace OFV.C05
 open OFV OFV.Spec OFV.Model OFV.Model.C05 OFV.Sem OFV.BK OFV.BKT
@@ -592,6 +593,25 @@ theorem bk_linear (tol : Rat) (htol : tol * tol ≤ 1 / 4) (n : Nat) (A B : Mode
   change den .fermion _ _ _ = den .fermion _ _ _ + c * den .fermion _ _ _
   rw [den_iadd .fermion tol _ _ _ _ hadd, Sem.den_smul]
 
+/-- **multiplicativity of `bravyi_kitaev`**: on the encoded basis states `bravyi_kitaev(A) * bravyi_kitaev(B)`
+(QubitOperator product) has the matrix elements of `A * B` (FermionOperator product) and hence of
+`bravyi_kitaev(A * B)` — every pair of FermionOperators on modes `< n`, every `n` -/
+theorem bk_multiplicative (tol : Rat) (htol : tol * tol ≤ 1 / 4) (n : Nat) (A B : Model.Op)
+    (hA : ∀ tc ∈ A, ∀ f ∈ tc.1, f.1 < n ∧ f.2 ≤ 1) (hB : ∀ tc ∈ B, ∀ f ∈ tc.1, f.1 < n ∧ f.2 ≤ 1)
+    (hokA : bkFermionOk tol n A = true) (hokB : bkFermionOk tol n B = true)
+    (hokAB : bkFermionOk tol n (mulOp .fermion A B) = true) (s s' : Nat) :
+    GV.coeff (applyOp .qubit (mulOp .qubit (bkFermion tol n A) (bkFermion tol n B)) [Spec.C05.enc .bk n s])
+        [Spec.C05.enc .bk n s'] = GV.coeff (applyOp .fermion (mulOp .fermion A B) [s]) [s']
+    ∧ GV.coeff (applyOp .qubit (bkFermion tol n (mulOp .fermion A B)) [Spec.C05.enc .bk n s]) [Spec.C05.enc .bk n s']
+        = GV.coeff (applyOp .qubit (mulOp .qubit (bkFermion tol n A) (bkFermion tol n B)) [Spec.C05.enc .bk n s])
+          [Spec.C05.enc .bk n s'] := by
+  have h1 := bk_mul_den tol htol n A B hA hB hokA hokB (fun y x => bk_exact tol htol n A hA hokA y x) s s'
+  refine ⟨h1, ?_⟩
+  have hAB : ∀ tc ∈ mulOp .fermion A B, ∀ f ∈ tc.1, f.1 < n ∧ f.2 ≤ 1 :=
+    mulOpF_keys_gen (P := ValidT n) (validT_append n) hA hB
+  have h2 := bk_exact tol htol n _ hAB hokAB s s'
+  exact h2.trans h1.symm
+
 /-! ### Bravyi-Kitaev superfast (`bksf.py`): the edge operators satisfy the edge algebra, for every graph
 
 `E` is `edge_matrix_indices` as the list of its columns (qubit `e` on edge `e`); `edgeB tol E i` and
@@ -871,10 +891,11 @@ example :
     bkFermionOk Generated.eqTolerance 6 A = true ∧ bkTreeFermionOk Generated.eqTolerance 6 A = true
     ∧ Model.C04.jwFermionOk Generated.eqTolerance A = true ∧ bkFermionOk Generated.eqTolerance 6 B = true
     ∧ Model.C04.iaddOk Generated.eqTolerance A (smul ⟨0, 2⟩ B) = true
-    ∧ bkFermionOk Generated.eqTolerance 6 (iadd Generated.eqTolerance A (smul ⟨0, 2⟩ B)) = true := by
+    ∧ bkFermionOk Generated.eqTolerance 6 (iadd Generated.eqTolerance A (smul ⟨0, 2⟩ B)) = true
+    ∧ bkFermionOk Generated.eqTolerance 6 (mulOp .fermion A B) = true := by
   intro A B
   refine ⟨by decide +kernel, by decide +kernel, by decide +kernel, by decide +kernel, by decide +kernel,
-    by decide +kernel⟩
+    by decide +kernel, by decide +kernel⟩
 
 example : ∀ m ∈ [11, 0, 3, 11, 4], m / 2 < 6 := by decide
 
@@ -894,7 +915,6 @@ example : bkTreeFermionOk Generated.eqTolerance 6
   F05-bksf-complex-coefficients, F05-bksf-missing-edge), the fermionic
   identities expressing a†a-monomials by Majorana edge operators, `vacuum_operator` (networkx cycle basis; no Model),
   and the isomorphism of the stabiliser subspace with the even-parity Fock space.
-* multiplicativity of `bravyi_kitaev` as a separate statement (it follows from `bk_equiv_jw` + `C04.jw_multiplicative` on
-  the encoded states; not restated). -/
+* multiplicativity of `bravyi_kitaev_tree` (same proof as `bk_multiplicative`, not restated). -/
 
 end OFV.C05
